@@ -288,6 +288,7 @@ func c01Run(r *runCtx, id string, f []string) {
 	}
 	failed := false
 	scopeReported := false
+	refReported := false
 	faultSeen := map[string]bool{}
 	for i, l := range lines {
 		cls, raw := u.runLine("log", l)
@@ -310,6 +311,13 @@ func c01Run(r *runCtx, id string, f []string) {
 				}
 				r.obs(id, "%d sem %s %s", i, semOut, semStore)
 			} else {
+				if inClass && (semOut != cls || semStore != st) && !refReported {
+					// inside the class the theorem covers, the reference semantics is what the
+					// compiled program has to compute: this line is a failing input
+					refReported = true
+					r.fail(id, "differs-from-reference", "line %q: the reference semantics gives %s %s, the compiled program on the real VM gives %s %s; program: %q", l, semOut, semStore, cls, st, src)
+					failed = true
+				}
 				r.obs(id, "%d sem %s %s", i, cls, st)
 			}
 			fmt.Fprintf(r.w, "%s MOBS %d sem %s %s\n", id, i, semOut, semStore)
